@@ -314,3 +314,25 @@ pub fn point_on_diag(p: &Point) -> bool {
 pub const fn c_point_on_diag(p: &Point) -> bool {
     p.x == p.y
 }
+
+// ---------------------------------------------------------------------------------------------
+// a user type whose equality is NOT reflexive (wraps a float): shortcuts such as "same address => equal"
+// are wrong for it
+
+#[derive(Debug, Clone, Copy, PartialEq, PartialOrd, Default)]
+pub struct FBox(pub f32);
+pub fn fbox_abs(b: FBox) -> FBox {
+    FBox(b.0.abs())
+}
+pub fn fbox_small(b: &FBox) -> bool {
+    !(b.0 > 1000.0)
+}
+
+/// idempotent; maps the empty string to a non-empty one (an empty input is NOT a fixed point)
+pub fn or_anon(s: String) -> String {
+    if s.is_empty() {
+        "anon".to_string()
+    } else {
+        s
+    }
+}
